@@ -550,6 +550,9 @@ class Wrapc(util.WrapperMixin):
         for var in node.variables:
             ast = var.ast
             output.append(ast.gen_arg_as_c() + ";")
+            # The header needs the includes of the member types
+            # (bool, size_t, int64_t ...).
+            self.header_typedef_nodes[ast.typemap.name] = ast.typemap
         output.extend(
             [
                 -1,
